@@ -298,7 +298,7 @@ def run(ctx):
                            "assumes, e.g. Scheduler(%s), %d workers: %s" % (len(disc_bad), len(items), conf, nw, d)))
 
     # ---- replay in the model
-    def shards(cases, name, chk):
+    def shards(cases, name, chk, ty):
         files, cur, load = [], [], 0
         for text, size in cases:
             if cur and (len(cur) >= 400 or load + size > 30000):
@@ -308,9 +308,9 @@ def run(ctx):
             load += size
         if cur:
             files.append(cur)
-        return [("%s_%03d" % (name, i), HDR + "Definition cases := [%s].\nEval vm_compute in (bad %s cases).\n" % (";\n".join(f), chk), f)
+        return [("%s_%03d" % (name, i), HDR + "Definition cases : list (%s) := [%s].\nEval vm_compute in (bad %s cases).\n" % (ty, ";\n".join(f), chk), f)
                 for i, f in enumerate(files)]
-    texts = shards(macro_cases, "c15_macro", "chk_macro") + shards(strict_cases, "c15_strict", "chk_strict")
+    texts = shards(macro_cases, "c15_macro", "chk_macro", "obs * list (Z * Z)") + shards(strict_cases, "c15_strict", "chk_strict", "obs * list Z * list (Z * Z)")
     res = ctx.coq_eval_many([(n_, t) for n_, t, _ in texts], timeout=1200)
     strict_bad = strict_total = macro_bad = macro_total = 0
     macro_eg = None
